@@ -133,13 +133,16 @@ func (op *pipelineOp) exec(fm *Frame) Exception {
 				// Store in input port for ease of retrieval later
 				sendStop: sendStop, sendError: sendError, readerGone: readerGone}
 		}
+		// The pipe this form reads from. It has to be remembered here: the form
+		// may redirect its standard input, which replaces newFm.ports[0].
+		pipeInput := newFm.ports[0]
 		f := func(form *formOp, fops []formOwnedPort, pexc *Exception) {
 			exc := form.exec(newFm, &fops)
 			if exc != nil && !(outputIsPipe && isReaderGone(exc)) {
 				*pexc = exc
 			}
 			if inputIsPipe {
-				input := newFm.ports[0]
+				input := pipeInput
 				*input.sendError = errs.ReaderGone{}
 				close(input.sendStop)
 				input.readerGone.Store(true)
